@@ -315,6 +315,12 @@ impl<T: TransportParticipantFactory> DomainParticipantFactoryAsync<T> {
                 .await
                 {
                     Either::A(m) => {
+                        // A mail that arrives while the timer is late must not be answered from
+                        // samples whose lifespan has expired in the meantime
+                        let now = domain_participant_factory.runtime.clock().now();
+                        for dp in &mut domain_participant_factory.domain_participant_list {
+                            dp.remove_stale_writer_samples(now);
+                        }
                         domain_participant_factory.handle(m);
                     }
                     Either::B(_) => (),
